@@ -380,9 +380,9 @@ def oracle(run: Run, c, impl):
             if abs(val - 1) > 1e-13:
                 fails.append(("lla:ellipsoid", f"lla2ecef at zero altitude is off the ellipsoid by {val - 1:.3g}"))
         lat, lon, alt = i["back"]
-        if abs(abs(c["lat"]) - 90.0) > 1e-6:
-            if abs(lat - math.radians(c["lat"])) > 1e-11 or abs(alt - c["alt"]) > 1e-7 or not ang_close(lon, math.radians(c["lon"]), 1e-11):
-                fails.append(("lla:inverse", f"ecef2lla(lla2ecef({c['lat']},{c['lon']},{c['alt']})) = ({math.degrees(lat)},{math.degrees(lon)},{alt})"))
+        at_pole = abs(abs(c["lat"]) - 90.0) <= 1e-6  # the longitude of a pole is undefined; latitude and height are not
+        if abs(lat - math.radians(c["lat"])) > (1e-7 if at_pole else 1e-11) or abs(alt - c["alt"]) > 1e-7 or not (at_pole or ang_close(lon, math.radians(c["lon"]), 1e-11)):
+            fails.append(("lla:inverse", f"ecef2lla(lla2ecef({c['lat']},{c['lon']},{c['alt']})) = ({math.degrees(lat)},{math.degrees(lon)},{alt})"))
     elif op == "razel":
         a, b = i["razel"], i["razel2"]
         if not (close(a[0], b[0], 1e-10) and ang_close(a[1], b[1], 1e-10) and ang_close(a[2], b[2], 1e-9)):
